@@ -402,33 +402,37 @@ def create_polyglot(first_file, second_file, polyglot_file_name=None, print_resu
     temp_second_file = "temp_" + os.path.basename(second_file)
     shutil.copy(first_file, temp_first_file)
     shutil.copy(second_file, temp_second_file)
-    files = [
-        (temp_first_file, identify_pytorch_file_format(temp_first_file)[0]),
-        (temp_second_file, identify_pytorch_file_format(temp_second_file)[0]),
-    ]
-    formats = set(map(lambda x: x[1], files))  # noqa
-    if {"PyTorch model archive format", "PyTorch v0.1.10"}.issubset(formats):
-        if polyglot_file_name is None:
-            polyglot_file_name = "polyglot.mar.pt"
-        polyglot_found = create_mar_legacy_pickle_polyglot(files, print_results, polyglot_file_name)
-    if {"PyTorch v1.3", "TorchScript v1.4"}.issubset(formats):
-        if polyglot_file_name is None:
-            polyglot_file_name = "polyglot.pt"
-        polyglot_found = create_standard_torchscript_polyglot(
-            files, print_results, polyglot_file_name
-        )
-    if {"PyTorch model archive format", "PyTorch v0.1.1"}.issubset(formats):
-        if polyglot_file_name is None:
-            polyglot_file_name = "polyglot.mar.tar"
-        polyglot_found = create_mar_legacy_tar_polyglot(files, print_results, polyglot_file_name)
-    if print_results:
-        if polyglot_found is False:
-            print(
-                """Fickling was not able to create any polyglots.
-                  If you think this is a mistake, raise an issue on our GitHub."""
+    try:
+        files = [
+            (temp_first_file, identify_pytorch_file_format(temp_first_file)[0]),
+            (temp_second_file, identify_pytorch_file_format(temp_second_file)[0]),
+        ]
+        formats = set(map(lambda x: x[1], files))  # noqa
+        if {"PyTorch model archive format", "PyTorch v0.1.10"}.issubset(formats):
+            if polyglot_file_name is None:
+                polyglot_file_name = "polyglot.mar.pt"
+            polyglot_found = create_mar_legacy_pickle_polyglot(files, print_results, polyglot_file_name)
+        if {"PyTorch v1.3", "TorchScript v1.4"}.issubset(formats):
+            if polyglot_file_name is None:
+                polyglot_file_name = "polyglot.pt"
+            polyglot_found = create_standard_torchscript_polyglot(
+                files, print_results, polyglot_file_name
             )
-        else:
-            print(f"The polyglot is contained in {polyglot_file_name}")
-    os.remove(temp_first_file)
-    os.remove(temp_second_file)
+        if {"PyTorch model archive format", "PyTorch v0.1.1"}.issubset(formats):
+            if polyglot_file_name is None:
+                polyglot_file_name = "polyglot.mar.tar"
+            polyglot_found = create_mar_legacy_tar_polyglot(files, print_results, polyglot_file_name)
+        if print_results:
+            if polyglot_found is False:
+                print(
+                    """Fickling was not able to create any polyglots.
+                      If you think this is a mistake, raise an issue on our GitHub."""
+                )
+            else:
+                print(f"The polyglot is contained in {polyglot_file_name}")
+    finally:
+        # also reached when a file cannot be identified or a construction fails
+        for temp_file in (temp_first_file, temp_second_file):
+            if os.path.exists(temp_file):
+                os.remove(temp_file)
     return polyglot_found
